@@ -242,8 +242,8 @@ CHECKS = {
     ),
     'C06': dict(
         pkg='./c06', test='TestC06', level='exploration', helpers={'vdriver': './cmd/vdriver'},
-        quick=dict(shards=8, checks=8, budget_s=900),
-        thorough=dict(shards=16, checks=600, budget_s=3400),
+        quick=dict(shards=8, checks=8, budget_s=1500, shrinktime='1s'),
+        thorough=dict(shards=16, checks=600, budget_s=3400, shrinktime='1s'),
         level_text=('Every case is a complete key exchange of the real client (fresh child process) against an independent, specification-following reference server '
                     'with generated parameters (RSA key from a pool, nonces, pq from three prime size classes, g in {3,4,7}, DH secrets, padding). Corners - each of nonce, '
                     'server_nonce, new_nonce, new_nonce_hash1, RSA ciphertext, g_a, g_b, g^ab starting with 1 (thorough: 2) zero bytes - are forced by searching inputs; client '
